@@ -315,7 +315,12 @@ impl System for DriveSys {
         let wrapped = ring_wrapped(&l.dec);
         let finished_before = l.dec.is_finished();
         match op {
-            Op::DecAll => self.decode(l, S::All)?,
+            Op::DecAll => {
+                self.decode(l, S::All)?;
+                if !l.dec.is_finished() {
+                    return Err(format!("decode_blocks(All) returned without finishing the frame although the source held all of it (stopped at position {} of {})", l.pos, self.seed.frame.len()));
+                }
+            }
             Op::DecBlocks(n) => self.decode(l, S::UptoBlocks(*n))?,
             Op::DecBytes(n) => self.decode(l, S::UptoBytes(*n))?,
             Op::Collect => {
@@ -377,6 +382,11 @@ impl System for DriveSys {
                 }
                 l.pos += rd;
                 self.take(l, &tgt[..wr], "decode_from_to()")?;
+                // progress: offered everything that is left of the frame and a target with room for all of the
+                // content, the call has no reason to stop before the end of the frame
+                if l.pos - rd + c >= frame.len() && *t >= self.seed.plain.len() + 1 && !(l.dec.is_finished() && l.pos == frame.len()) {
+                    return Err(format!("decode_from_to was offered the complete rest of the frame ({} bytes from position {}) and a {t}-byte target, but stopped at position {} of {} (finished: {})", src.len(), l.pos - rd, l.pos, frame.len(), l.dec.is_finished()));
+                }
             }
             Op::ReadToEnd => return Err("MODEL: read_to_end belongs to the streaming system".into()),
         }
